@@ -685,6 +685,12 @@ class Graph:
         or using avoid_edges [(from_block, label)]."""
         avoid_nodes = set(avoid_nodes)
         avoid_edges = set(avoid_edges)
+        # ("not-case", label id): every outcome of the switch at the end of that block except the named case
+        for (b_, lab_) in list(avoid_edges):
+            if isinstance(lab_, tuple) and lab_ and lab_[0] == "not-case" and b_ in self.blocks:
+                for (_y, l2) in self.succ.get((b_, len(self.blocks[b_]["el"])), ()):
+                    if l2 != ("case", lab_[1]):
+                        avoid_edges.add((b_, l2))
         seen = set()
         dq = deque()
         for s in srcs:
